@@ -247,6 +247,9 @@ func (w *vWorld) vStatement(tag string, budget int, allowBad bool) *tree.Stateme
 			}
 			return cs
 		case 0:
+			if vChoose(tag+".stop.arg", 2) == 1 {
+				return vCommandStmt(variable.NewString("stop"), variable.NewString("now")) // <<stop now>>: words after the name do not make it another command
+			}
 			return vCommandStmt(variable.NewString("stop"))
 		case 1:
 			return vCommandStmt(variable.NewString("cmd"), variable.NewNumber(3), variable.NewString("arg"))
@@ -322,6 +325,14 @@ func (w *vWorld) registerHost(dr *DialogueRunner) {
 		w.pending = ch
 		return ch
 	})
+	if vParam("HOSTSTOP", 0) != 0 && vChoose("host.registers.stop", 2) == 1 {
+		// a host that registers a command of its own under the name "stop": <<stop>> stays the dialogue's stop, is
+		// never dispatched (the handler would log, and its channel never completes) and ends the dialogue for good
+		dr.AddCommand("stop", func(args []*variable.Value) <-chan error {
+			w.handlers = append(w.handlers, vHandlerCall{"stop", args})
+			return make(chan error, 1)
+		})
+	}
 }
 
 // vNewWorld builds an arbitrary runner state. budget = nesting budget of the head statement;
